@@ -186,6 +186,7 @@ def dict_loop(eng, s, it, st, fr, k):
     def body_end(s2):
         eng.oblige_clauses("invariant-preserve", pre, s2, L._inv(eng, spec, s2, fr, {"k_": kk + 1, "n_": n}), s)
         L._body_ensures(eng, spec, s2, fr, {"k_": kk, "n_": n}, pre, s)
+        L._ghost_frame(eng, sh_it, s2, ordinal, pre, s)
         eng.canary(f"{pre}:body-end", s2, s)
     fr_body = fr.with_(brk=lambda s2: k(s2), cont=body_end)
     key = z3.Select(keys, kk)
